@@ -177,7 +177,13 @@ func NewWorld(c Case, r *ev.Result) (*World, error) {
 	return w, nil
 }
 
-func (w *World) open() error {
+func (w *World) open() (err error) {
+	// fs_db panics (lo.Must) when Badger cannot be opened: report that as an error of Open
+	defer func() {
+		if p := recover(); p != nil {
+			err = fmt.Errorf("open panicked: %v", p)
+		}
+	}()
 	if w.Case.External {
 		return w.openExternal()
 	}
